@@ -101,9 +101,17 @@ fn main() {
     let replay: String = arg(&args, "--replay", String::new());
     let out = std::io::stdout();
     let mut out = std::io::BufWriter::new(out.lock());
+    // socket-level families cannot re-execute a recorded history (timing, ports, random routing): a replay
+    // hands the recorded trace back, to be judged again by the driver
+    if !replay.is_empty() && ["udpnet", "httpnet", "wsnet", "supervise"].contains(&family) {
+        use std::io::Write;
+        let text = std::fs::read_to_string(&replay).unwrap_or_default();
+        for l in text.lines() { if !l.starts_with('#') { writeln!(out, "{}", l).unwrap(); } }
+        return;
+    }
     match family {
         "udpstore" => store::run(&mut out, seed, cases, maxops, &replay, false),
-        "udpnet" => udpnet::run(&mut out, seed, cases, &replay, arg(&args, "--uring-resp-buf", 2048)),
+        "udpnet" => udpnet::run(&mut out, seed, cases, &replay, arg(&args, "--uring-resp-buf", 2048), arg(&args, "--mio-only", 0) == 1),
         "udpstats" => udpstats::run(&mut out, seed, cases, maxops, &replay),
         "rawbytes" => rawbytes::run(&mut out, seed, cases, &replay),
         "udpconc" => udpconc::run(&mut out, seed, cases, arg(&args, "--schedules", 300), &replay),
